@@ -52,10 +52,15 @@ def parse_cf(s):
     return sp.sympify(s, locals={"n": N1})
 
 
-def run_real(tup, timeout=120):
-    """the real InvariantIdeal on the tuple -> (goal symbols, closed forms, basis) ; raises"""
+def run_real(tup, timeout=120, counter=0):
+    """the real InvariantIdeal on the tuple -> (goal symbols, closed forms, basis) ; raises.
+    `counter` fresh names are drawn first: the result must not depend on the state of the process-wide name counter
+    (earlier analyses in the same process advance it)."""
     import sympy as sp
     from invariants.invariant_ideal import InvariantIdeal
+    from utils import get_unique_var
+    for _ in range(counter):
+        get_unique_var()
     cfs = {f"g{i}": parse_cf(s) for i, s in enumerate(tup)}
     with polar_iface.time_limit(timeout):
         basis = InvariantIdeal(dict(cfs)).compute_basis()
